@@ -563,6 +563,12 @@ class Executor:
         work = [st]
         while work:
             s = work.pop()
+            if not s.frames and not s.mt:
+                # nothing left to execute (e.g. a top-level drop whose Drop impls have all returned)
+                if s.status == "running":
+                    s.status = "returned"
+                finals.append(s)
+                continue
             try:
                 succ = self.step_block(s)
             except Unsupported as e:
@@ -1089,22 +1095,25 @@ class Executor:
                 # user Drop impl first, then the fields (fields handled when the impl returns)
                 def after(ex, s, rv, v=v, ref=ref):
                     vv = s.load(ref)
+                    if not s.frames and s.status == "returned":
+                        s.status = "running"     # a top-level drop: the fields are still to be dropped
                     outs = [s]
-                    for fld in (vv.fields if isinstance(vv, VStruct) else []):
+                    for i, fld in enumerate(vv.fields if isinstance(vv, VStruct) else []):
                         nxt = []
                         for x in outs:
-                            nxt += ex.drop_value(x, fld, None)
+                            nxt += ex.drop_value(x, fld, VRef(ref.cell, ref.path + (i,)))
                         outs = nxt
                     return outs
-                fr = st.frames[-1]
-                return self.push_call(st, f, [ref], VRef(st.alloc(VUnit())), fr.bb, tag=after)
+                ret_bb = st.frames[-1].bb if st.frames else None
+                return self.push_call(st, f, [ref], VRef(st.alloc(VUnit())) if st.frames else None, ret_bb, tag=after)
             outs = [st]
             if hasattr(self.models, "on_drop"):
                 self.models.on_drop(self, st, v)
-            for fld in v.fields:
+            for i, fld in enumerate(v.fields):
                 nxt = []
                 for x in outs:
-                    nxt += self.drop_value(x, fld, None)
+                    # a field with its own Drop impl needs a place to be dropped in: the field of this value
+                    nxt += self.drop_value(x, fld, VRef(ref.cell, ref.path + (i,)) if ref is not None else None)
                 outs = nxt
             return outs
         if isinstance(v, VEnum):
